@@ -4,6 +4,7 @@
 //!   lit <hex text>                 real expression parser: error count + literal skeleton
 //!   asg <ty> <ty>                  type_system::assignability_check / type_meet / is_the_same_type
 //!   slv <tps> <concrete> <generic> type_system::solve_type_constraints
+//!   sup <json>                     real resolve_all_transitive_super_types on declared toplevels
 //!   prog <json>                    parser + type_check_sources (errors per module) + compile_sources
 use samlang_ast::source::{Literal, expr};
 use samlang_ast::{Location, Reason};
@@ -259,6 +260,57 @@ fn run_prog(line: &str) -> String {
   }
 }
 
+/// `sup {"source": text, "queries": ["C1", ...]}`: module `M1`; for every queried toplevel the real
+/// `resolve_all_transitive_super_types` on its own nominal type (type parameters as generics).
+fn run_sup(line: &str) -> String {
+  let v: serde_json::Value = match serde_json::from_str(line) {
+    Ok(v) => v,
+    Err(e) => return format!("bad {e}"),
+  };
+  let text = v["source"].as_str().unwrap_or("").to_string();
+  let queries: Vec<String> = v["queries"]
+    .as_array()
+    .map(|a| a.iter().filter_map(|x| x.as_str().map(|s| s.to_string())).collect())
+    .unwrap_or_default();
+  let r = catch_unwind(AssertUnwindSafe(move || {
+    let heap = &mut Heap::new();
+    let mut es = ErrorSet::new();
+    let m = heap.alloc_module_reference_from_string_vec(vec!["M1".to_string()]);
+    let parsed = samlang_parser::parse_source_module_from_text(&text, m, heap, &mut es);
+    if es.has_errors() {
+      return "syntax".to_string();
+    }
+    let mut sources = HashMap::new();
+    sources.insert(m, parsed);
+    let (_, global_cx) = samlang_checker::type_check_sources(&sources, &mut es);
+    let mut out = Vec::new();
+    for q in &queries {
+      let id = heap.alloc_string(q.clone());
+      let Some(sig) = global_cx.get(&m).and_then(|mc| mc.interfaces.get(&id)) else {
+        out.push(format!("{q}:missing"));
+        continue;
+      };
+      let r0 = Reason::new(Location::dummy(), None);
+      let nominal = NominalType {
+        reason: r0,
+        is_class_statics: false,
+        module_reference: m,
+        id,
+        type_arguments: sig
+          .type_parameters
+          .iter()
+          .map(|tp| Arc::new(Type::Generic(r0, tp.name)))
+          .collect(),
+      };
+      let (types, cyclic) = hooks::resolve_supers(&global_cx, &nominal);
+      let ts: Vec<String> = types.iter().map(|t| ty_str(&Type::Nominal(t.clone()), heap)).collect();
+      out.push(format!("{q}:c={}:{}", cyclic as u8, if ts.is_empty() { "-".to_string() } else { ts.join("|") }));
+    }
+    out.join(" ")
+  }));
+  r.unwrap_or_else(|e| format!("panic {}", hex(panic_msg(&e).as_bytes())))
+}
+
 fn main() {
   std::panic::set_hook(Box::new(|_| {}));
   for_each_line(|line| {
@@ -372,6 +424,7 @@ fn main() {
         }));
         r.unwrap_or_else(|e| format!("panic {}", hex(panic_msg(&e).as_bytes())))
       }
+      "sup" => run_sup(rest),
       "prog" => run_prog(rest),
       other => format!("bad-op {other}"),
     }
